@@ -72,6 +72,10 @@ AltJ(d) == CASE d = "p" -> {"absent"}
 DimS == {"tid", "sid", "smp", "par", "st", "cs"}
 DimM == {"tid", "sid", "smp", "cs"}
 DimJ == {"p", "tid", "sid", "par", "fl", "st", "cs"}
+\* printed once per run: the partition's vocabulary (the check verifies that every value was replayed)
+ASSUME PrintT(<<"DIMS", ToJson([s |-> [d \in DimS |-> AltS(d) \cup {DefS[d]}],
+                                m |-> [d \in DimM |-> AltM(d) \cup {DefM[d]}],
+                                j |-> [d \in DimJ |-> AltJ(d) \cup {DefJ[d]}]])>>)
 
 \* mutated dimensions, counted against the base the carrier started from (absent parts do not count)
 FaultsS(s) == IF s.p = "absent" THEN 0 ELSE Cardinality({d \in DimS : s[d] # DefS[d]})
